@@ -175,6 +175,68 @@ pub fn run_case(case: &mut Case) {
                     .set("denotes", d.value.show()),
             );
         }
+        // (i') a group (sequence of fields under optional / fallback / fallback_with / many) of
+        // which only the first required member is given: the member is used by nobody
+        if let Spec::Seq(fields) = &b.spec.root {
+            for f in fields {
+                let (inner, wname) = match f {
+                    Spec::Wrap { w, inner, .. }
+                        if matches!(
+                            w,
+                            W::Optional { .. } | W::Fallback | W::FallbackWithOk | W::Many { .. }
+                        ) =>
+                    {
+                        (&**inner, format!("{:?}", w))
+                    }
+                    _ => continue,
+                };
+                let members = match inner {
+                    Spec::Seq(ms) if ms.len() >= 2 => ms,
+                    _ => continue,
+                };
+                let required: Vec<&Spec> = members
+                    .iter()
+                    .filter(|m| absent_value(m).is_none())
+                    .collect();
+                if required.len() < 2 {
+                    continue;
+                }
+                // only when the accepted line does not use the group at all
+                let mut ids = Vec::new();
+                inner.level_items(&mut ids);
+                let used = units.iter().any(|u| match &u.kind {
+                    UKind::Flag { item, .. } | UKind::Arg { item, .. } => {
+                        ids.iter().any(|i| i.id == *item)
+                    }
+                    _ => false,
+                });
+                if used {
+                    continue;
+                }
+                let mut g = Gen::new(&mut rng);
+                let part = match derive_present(required[0], &mut g) {
+                    Some(p) => p,
+                    None => continue,
+                };
+                let mut atoms = d.atoms.clone();
+                atoms.extend(part.atoms);
+                let punits =
+                    match order_units(&atoms, &mut rng, OrderStyle::Random, DashDash::IfNeeded) {
+                        Some(u) => u,
+                        None => continue,
+                    };
+                let pline = render_cfg(&punits, &mut rng, SpellStyle::Random, &hidden);
+                let wkind = wname.split(|c: char| !c.is_alphanumeric()).next().unwrap_or("");
+                let class = format!("partial-group:{}", wkind);
+                b.expect_stderr(
+                    case,
+                    &pline.argv,
+                    &class,
+                    &format!("partial-group-accepted:{}", wkind),
+                    "only the first required member of a group is given",
+                );
+            }
+        }
         // (i) insertions
         for ins in insertions(&b, &units, &line, &mut rng, case.thorough) {
             let class = format!("insert:{}", ins.kind);
